@@ -324,7 +324,7 @@ def dumpStepWith (infer : Option Nat → List JobRec → Option Nat) (flush : Bo
   let numObj := infer st.numObjective st.pending
   let results := st.pending.map (resultOf numObj)
   if st.pending.isEmpty then
-    -- `len(resultsList) == 0`: the file is not even opened
+    -- `len(resultsList) == 0`: nothing is written, no file is touched
     ({ st with numObjective := numObj }, ⟨none, []⟩)
   else
     let columns := if st.started then st.columns else chooseColumns flush st.columns results
